@@ -266,10 +266,9 @@ class Solver:
 
         try:
             iterate.check_eval()
+            print_problem_stats(problem, iterate)
         except EvalError as e:
             raise Exception("Failed to evaluate initial iterate") from e
-
-        print_problem_stats(problem, iterate)
 
         lamb = params.lamb_init
 
